@@ -697,7 +697,7 @@ class PureInterp:
                     if None in names or "BaseException" in names or r.kind in [n.rsplit(".", 1)[-1] for n in names if n] or (
                             "Exception" in names and not base_only) or self._handler_matches(r, h, module):
                         if h.name:
-                            env[h.name] = getattr(r, "obj", None) or Obj("exc:" + r.kind, args=(r.detail,), detail=r.detail)
+                            env[h.name] = getattr(r, "obj", None) or self._exc_instance(r)
                         prev = env.get("__current_exception__")
                         env["__current_exception__"] = r
                         try:
@@ -916,6 +916,20 @@ class PureInterp:
                 except Exception:
                     continue
         return False
+
+    def _exc_instance(self, r):
+        """The exception object for a failure injected by a hook (Raised(kind, detail)): an instance of the repository's class of that name when there is exactly one
+        (so that .message, .args and the class's own methods are there), else a plain stand-in."""
+        cands = [ci for ci in self.index.classes.values() if ci.name == r.kind]
+        if len(cands) == 1:
+            try:
+                o = self.apply(cands[0], [r.detail], {}, 0)
+                if isinstance(o, Obj):
+                    r.obj = o
+                    return o
+            except (Raised, Unsupported):
+                pass
+        return Obj("exc:" + r.kind, args=(r.detail,), detail=r.detail, message=r.detail)
 
     # ------------------------------------------------------------------ expressions
     def truth(self, v):
